@@ -732,6 +732,9 @@ class Engine:
             return int_const(int(t["int"]), ii[0], ii[1])
         if "fnptr" in t:
             f = t["fnptr"]
+            if f.get("inst") == "closure_once_shim" and f.get("self_ty") is not None and T.t(f["self_ty"])["k"] == "closure" and not T.t(f["self_ty"]).get("upvars"):
+                # a non-capturing closure coerced to a function pointer: calling the pointer runs the closure body
+                return Fn(frozenset([("closure", T.t(f["self_ty"])["path"], None, ())]))
             class _NoSub:  # a constant's function pointers are fully monomorphic
                 sub = {}
             return Fn(frozenset([("item", f["path"], self._fkey(f, _NoSub))]))
